@@ -17,7 +17,10 @@ import vlib
 PROP = "C19"
 COMP = "bigint"
 COMBOS = {8: [64, 72, 256, 2048], 16: [64, 120, 1024], 32: [64, 96, 256, 2048], 64: [64, 128, 192, 256, 1000, 2048]}
-HELPERS = [(8, 8), (16, 16), (32, 32), (64, 64), (32, 64)]
+HELPERS = [(8, 8), (16, 16), (32, 32), (64, 64), (32, 64), (16, 64), (8, 64)]
+# (t, 64) with t < 64: the split algorithms of DoubleSize<., 64U> re-instantiated on t-bit words (t/2-bit halves);
+# t = 16 and t = 8 through the driver's promotion-free word type Narrow<>
+QUICK_D8 = [1, 2, 3, 7, 8, 9, 15, 16, 17, 127, 128, 129, 131, 193, 254, 255]
 
 
 def nwords(w, nbits):
@@ -278,6 +281,79 @@ SCENARIOS = [
 ]
 
 
+def half_set(h, rng=None, extra=0):
+    """boundary half-words: the carry structure of the split algorithms depends on the halves"""
+    b = {0, 1, 2, 3, (1 << (h - 1)) - 1, 1 << (h - 1), (1 << (h - 1)) + 1, (1 << h) - 2, (1 << h) - 1}
+    b = {x for x in b if 0 <= x < (1 << h)}
+    if rng is not None:
+        for _ in range(extra):
+            b.add(rng.getrandbits(h))
+    return sorted(b)
+
+
+def split_cases(rng, tier):
+    """(a) every double-word helper instantiation on operands assembled from boundary half-words:
+           Multiply: all (aH, aL, bH, bL) in B^4 (9^4 = 6561 for h >= 4) plus 2000 pairs over B + 3 random halves;
+           Divide: divisor in B^2 \ {0}, high word in B^2 below the divisor, low word in L^2 (L = B in the thorough
+           tier, {0, 1, 2^(h-1), 2^h-1} in the quick tier);
+       (b) the split algorithms at 8-bit words (4-bit halves): Multiply exhaustively (65536 pairs); Divide exhaustively
+           over (high, low) for the divisors of QUICK_D8 in the quick tier (every divisor: thorough tier, chunked)."""
+    cases = []
+    counts = {"a_mul": 0, "a_div": 0, "b_mul8": 0, "b_div8": 0}
+    for (t, hw) in HELPERS:
+        if (t, hw) == (8, 64):
+            continue
+        h = t // 2
+        B = half_set(h)
+        word = lambda hi, lo: (hi << h) | lo
+        words = [word(x, y) for x in B for y in B]
+        for a in words:
+            for m in words:
+                cases.append("M %d %d %d %d" % (t, hw, a, m))
+                counts["a_mul"] += 1
+        BR = half_set(h, rng, 3)
+        for _ in range(2000):
+            cases.append("M %d %d %d %d" % (t, hw, word(rng.choice(BR), rng.choice(BR)), word(rng.choice(BR), rng.choice(BR))))
+            counts["a_mul"] += 1
+        L = B if tier != "quick" else sorted({0, 1, 1 << (h - 1), (1 << h) - 1})
+        lows = [word(x, y) for x in L for y in L]
+        for d in words:
+            if d == 0:
+                continue
+            for hi in words:
+                if hi >= d:
+                    continue
+                for lo in lows:
+                    cases.append("D %d %d %d %d %d" % (t, hw, hi, lo, d))
+                    counts["a_div"] += 1
+    for a in range(256):
+        for m in range(256):
+            cases.append("M 8 64 %d %d" % (a, m))
+            counts["b_mul8"] += 1
+    for d in QUICK_D8:
+        for hi in range(d):
+            for lo in range(256):
+                cases.append("D 8 64 %d %d %d" % (hi, lo, d))
+                counts["b_div8"] += 1
+    return cases, counts
+
+
+def div8_chunks():
+    """thorough tier: DoubleSize<Narrow<uint8>, 64U>::Divide on EVERY (high, low, divisor) with high < divisor"""
+    chunk = []
+    for d in range(1, 256):
+        if d in QUICK_D8:
+            continue
+        for hi in range(d):
+            for lo in range(256):
+                chunk.append("D 8 64 %d %d %d" % (hi, lo, d))
+        if len(chunk) > 900000:
+            yield chunk
+            chunk = []
+    if chunk:
+        yield chunk
+
+
 def helper_cases(rng, count):
     cases = []
     for (t, hw) in HELPERS:
@@ -328,7 +404,9 @@ def gen_cases(rng, tier, boost=1):
             dist["history"] += 1
     hc = helper_cases(rng, (1500 if tier == "quick" else 40000) * boost)
     dist["helper"] = len(hc)
-    return cases + hc, dist
+    sc, counts = split_cases(rng, tier)
+    dist["helper_split"] = counts
+    return cases + hc + sc, dist
 
 
 def corpus_cases():
@@ -434,7 +512,12 @@ def check(tier):
         if attempt == 0:
             cases = corpus_cases() + cases
         for k, v in dist.items():
-            dist_total[k] = dist_total.get(k, 0) + v
+            if isinstance(v, dict):
+                t = dist_total.setdefault(k, {})
+                for k2, v2 in v.items():
+                    t[k2] = t.get(k2, 0) + v2
+            else:
+                dist_total[k] = dist_total.get(k, 0) + v
         all_cases += cases
         # stage A: corpus + fixed scenarios (cheap; a crashing tree is reported from here without
         # paying for a line-by-line rerun of thousands of histories), stage B: the rest
@@ -473,6 +556,25 @@ def check(tier):
             break
         # S ok everywhere but tie/proof broken: enlarge the search once
 
+    # thorough tier: the 128/64 split division at 8-bit words on EVERY (high, low, divisor), in chunks
+    sweep8 = 0
+    if tier == "thorough" and not found_input:
+        for chunk in div8_chunks():
+            rc = vlib.differential(COMP, exe, chunk)
+            sweep8 += len(chunk)
+            crashes += len(rc.crashes)
+            n_oracle_fail += len(rc.oracle_fail)
+            mism += rc.mismatch[:3]
+            bad += rc.bad[:3]
+            if rc.oracle_fail:
+                c, i, m, tag = rc.oracle_fail[0]
+                found_input = True
+                rep.violation({"component": "bigint", "case": c, "format": "D <word bits> <helper width> <high> <low> <divisor>",
+                               "observed_impl": i, "model": m, "oracle": "fails: remainder / quotient differ from exact division",
+                               "model_agrees_with_impl": tag == "same", "broken": None if proof_ok else "Properties_C19.vo"})
+                break
+        dist_total.setdefault("helper_split", {})["b_div8_thorough_extra"] = sweep8
+
     if not found_input and (mism or bad or not proof_ok):
         what = []
         if not proof_ok:
@@ -503,11 +605,11 @@ def check(tier):
         "checker_cmd": "cd coq && make Properties_C19.vo (coqc 8.16.1, full .vo build); coqc -Q . Qv Properties_C19.v for Print Assumptions",
         "trusted_base": TRUSTED,
         "theorems": [{"name": n, "assumptions": a} for n, a in theorems],
-        "evaluations": len(all_cases),
+        "evaluations": len(all_cases) + sweep8,
         "distinct_nontrivial": nt,
         "rule": "operation histories (<= 40 steps; <= 16 for more than 64 words) on BigInt<uint8|16|32|64, W> for W in %s, operands biased to 0, 1, all-ones, single bits, "
                 "2^k-1, top-bit(+odd) values, shifts biased to word multiples and to the exact room left; 13 fixed scenarios (carry/borrow chains, zero, the D6-D10/D31 replays, move/copy construction and assignment, /=, Storage()+SetIndex) "
-                "per instantiation; DoubleSize Multiply/Divide on 8/16/32/64-bit words and the 128/64 algorithm re-instantiated on 32-bit words; each history is generated so that "
+                "per instantiation; DoubleSize Multiply/Divide on 8/16/32/64-bit words and the 64-bit split algorithms re-instantiated on 32-, 16- and 8-bit words (random + boundary operands, all pairs of boundary half-words, exhaustive at 8-bit words: see helper_strengthening); each history is generated so that "
                 "every step's precondition holds and the result fits (python mirror), at most one last step outside the property (overflow, Subtract underflow, SetIndex to a wrong in-range word: defined behaviour, model = code compared, oracle silent); non-trivial = value spans > 1 word at some step and >= 3 "
                 "value-changing operations (helpers: an operand above a half word); distinct = distinct case strings" % json.dumps(COMBOS),
         "samples": [all_cases[0][:400], all_cases[len(all_cases) // 3][:400], all_cases[-1][:400]],
@@ -517,7 +619,16 @@ def check(tier):
                         "FindFirstBit, FindLastBit, the comparison family / IsZero / NotZero / IsBig, the conversion operator; DoubleSize Multiply and Divide for every width "
                         "(the 64-bit variants generically in the half width); nothing is left to the correspondence run alone except the tie model <-> C++ itself",
         "history_steps": steps,
-        "traces_validated_against_impl": len(all_cases),
+        "traces_validated_against_impl": len(all_cases) + sweep8,
+        "helper_strengthening": "(a) ran: Multiply on all 9^4 pairs of boundary half-words {0,1,2,3,2^(h-1)-1,2^(h-1),2^(h-1)+1,2^h-2,2^h-1} (+2000 pairs with 3 random halves) "
+                                "and Divide on boundary (high<divisor, low, divisor) triples for DoubleSize<uint8,8>, <uint16,16>, <uint32,32>, <uint64,64> and the 64-bit split "
+                                "algorithms re-instantiated as DoubleSize<uint32,64> and DoubleSize<Narrow<uint16>,64>: %d multiply pairs, %d divide triples; "
+                                "(b) ran: DoubleSize<Narrow<uint8>,64> (the same source at 8-bit words, 4-bit halves, promotion-free word type) Multiply on all 65536 pairs "
+                                "(%d) and Divide on all (high<divisor, low) for %s: %d triples" % (
+                                    dist_total.get("helper_split", {}).get("a_mul", 0), dist_total.get("helper_split", {}).get("a_div", 0),
+                                    dist_total.get("helper_split", {}).get("b_mul8", 0),
+                                    ("every divisor 1..255" if tier == "thorough" else "the divisors %s (every divisor in the thorough tier)" % QUICK_D8),
+                                    dist_total.get("helper_split", {}).get("b_div8", 0) + sweep8),
         "oracle_failures": n_oracle_fail,
         "model_impl_mismatches": len(mism),
         "crashes": crashes,
